@@ -66,7 +66,7 @@ def gen_task(rng, lay, uid, simple=False, allow_app_slots=True):
     # 0.2 do not (three 0.3 shares of one GPU leave a residue when summed up
     # and subtracted again)
     gpr = pick([0, 0, 0, 0, 1, 0.5, 0.25, 0.3, 0.1, 0.2],
-               [2, 0.75, gpn, gpn + 1], 0.15)
+               [2, 0.75, gpn, gpn + 1, 0.6, 0.35], 0.15)
     if gpn == 0 and rng.random() < 0.85:
         gpr = 0
     lfs = pick([0, 0, 0, 30, 60], [100, 120], 0.08)
